@@ -61,10 +61,12 @@ type inclusiveGateway struct {
 	activated               *flowSync
 	awaiting                []id.Id
 	arrived                 []id.Id
-	sync                    []chan IAction
-	once                    sync.Once
-	flowTracker             *flowTracker
-	synchronized            bool
+	// arrivals counts, per flow, how often it has arrived at this gateway
+	arrivals     map[id.Id]int
+	sync         []chan IAction
+	once         sync.Once
+	flowTracker  *flowTracker
+	synchronized bool
 }
 
 func newInclusiveGateway(wr *wiring, element *schema.InclusiveGateway) (gw *inclusiveGateway, err error) {
@@ -102,6 +104,7 @@ func newInclusiveGateway(wr *wiring, element *schema.InclusiveGateway) (gw *incl
 		nonDefaultSequenceFlows: nonDefaultSequenceFlows,
 		defaultSequenceFlow:     defaultSequenceFlow,
 		flowTracker:             newFlowTracker(wr.tracer, element),
+		arrivals:                make(map[id.Id]int),
 	}
 	return
 }
@@ -161,6 +164,12 @@ func (gw *inclusiveGateway) run(ctx context.Context, sender tracing.ISenderHandl
 						// and now we wait until the probe has returned
 					}
 				} else {
+					// The tracker learns about flows from the trace stream, which may
+					// lag behind the flows themselves: wait until it has seen this
+					// flow heading here, so that the cohort it reports is the one of
+					// this activation and not what was left of an earlier one.
+					gw.arrivals[m.flow.Id()]++
+					gw.flowTracker.waitAnnounced(m.flow.Id(), gw.arrivals[m.flow.Id()])
 					if gw.activated == nil {
 						// Haven't been activated yet
 						gw.activated = &flowSync{response: m.response, flow: m.flow}
@@ -249,7 +258,13 @@ type flowTracker struct {
 	shutdownCh chan bool
 	flows      map[id.Id]schema.Id
 	// forks: the inclusive gateways seen forking (the locations that name a cohort)
-	forks      map[schema.Id]bool
+	forks map[schema.Id]bool
+	// announced counts, per flow, the flow traces seen in which it heads for
+	// this gateway; stopped: the tracker has returned (nothing more will come)
+	announced  map[id.Id]int
+	stopped    bool
+	announceMu sync.Mutex
+	announceCv *sync.Cond
 	activityCh chan struct{}
 	lock       sync.RWMutex
 	element    *schema.InclusiveGateway
@@ -268,9 +283,11 @@ func newFlowTracker(tracer tracing.ITracer, element *schema.InclusiveGateway) *f
 		shutdownCh: make(chan bool),
 		flows:      make(map[id.Id]schema.Id),
 		forks:      make(map[schema.Id]bool),
+		announced:  make(map[id.Id]int),
 		activityCh: make(chan struct{}, 1),
 		element:    element,
 	}
+	tracker.announceCv = sync.NewCond(&tracker.announceMu)
 	// Lock the tracker until it has caught up enough
 	// to see the incoming flow for the node
 	tracker.lock.Lock()
@@ -278,7 +295,23 @@ func newFlowTracker(tracer tracing.ITracer, element *schema.InclusiveGateway) *f
 	return &tracker
 }
 
+// waitAnnounced blocks until the tracker has seen the n-th flow trace in which
+// the flow heads for this gateway (or has returned).
+func (tracker *flowTracker) waitAnnounced(flowId id.Id, n int) {
+	tracker.announceMu.Lock()
+	for tracker.announced[flowId] < n && !tracker.stopped {
+		tracker.announceCv.Wait()
+	}
+	tracker.announceMu.Unlock()
+}
+
 func (tracker *flowTracker) run() {
+	defer func() {
+		tracker.announceMu.Lock()
+		tracker.stopped = true
+		tracker.announceCv.Broadcast()
+		tracker.announceMu.Unlock()
+	}()
 	// As per note in the constructor, we're starting in a locked mode
 	locked := true
 	// Flag for notifying the node about activity
@@ -373,6 +406,12 @@ func (tracker *flowTracker) handleTrace(locked bool, trace tracing.ITrace, notif
 			}
 		}
 		for _, snapshot := range t.Flows {
+			if idPtr, present := tracker.element.Id(); present && *idPtr == *snapshot.SequenceFlow().TargetRef() {
+				tracker.announceMu.Lock()
+				tracker.announced[snapshot.Id()]++
+				tracker.announceCv.Broadcast()
+				tracker.announceMu.Unlock()
+			}
 			// If we haven't reached the node
 			if !reachedNode {
 				// Try and see if this flow is the one that goes into it
